@@ -25,7 +25,7 @@ use rustc_hir as hir;
 use rustc_hir::def::{DefKind, Res};
 use rustc_hir::def_id::{DefId, LocalDefId, LOCAL_CRATE};
 use rustc_middle::mir;
-use rustc_middle::ty::{self, print::with_crate_prefix, print::with_no_trimmed_paths, Ty, TyCtxt};
+use rustc_middle::ty::{self, print::with_crate_prefix, print::with_no_trimmed_paths, print::with_no_visible_paths, Ty, TyCtxt};
 use rustc_span::Span;
 use std::fmt::Write as _;
 
@@ -92,6 +92,17 @@ fn qual(s: String) -> String {
 }
 
 fn path_of(tcx: TyCtxt<'_>, did: DefId) -> String {
+  // items of the other workspace crate are named by their definition path (not by the shortest re-export visible from
+  // here), so that a call from `ord` into `ordinals` carries the very name the callee's body has in its own fact file
+  if !did.is_local() {
+    let cn = tcx.crate_name(did.krate);
+    let cn = cn.as_str();
+    if cn == "ord" || cn == "ordinals" {
+      return qual(with_crate_prefix!(with_no_visible_paths!(with_no_trimmed_paths!(
+        tcx.def_path_str(did)
+      ))));
+    }
+  }
   qual(with_crate_prefix!(with_no_trimmed_paths!(tcx.def_path_str(did))))
 }
 
